@@ -44,6 +44,16 @@ def _prehistory():
     panel.run(seed=5)
 
 
+def _random_methods():
+    """one call of every public method of d42.generation.Random (custom types draw through them)"""
+    from d42.generation import Random
+    r = Random()
+    items = list(range(12))
+    r.shuffle_list(items)
+    return [r.random_int(-5, 10 ** 6), r.random_float(-1.0, 1.0), r.random_float(0.0, 9.0, 2), r.random_str(6, "abcdef01"),
+            r.random_choice(["x", "y", "z", "w"]), items, r.random_int(0, 1)]
+
+
 def _serve_one(line):
     from pbt import codec, specs
     from d42 import fake
@@ -58,6 +68,7 @@ def _serve_one(line):
                 out.append(codec.enc(fake(s)))
             except Exception as e:  # noqa
                 out.append({"$raised": type(e).__name__})
+        out.append(codec.enc(_random_methods()))
         return {"out": out}
     except Exception as e:  # noqa
         return {"error": repr(e)}
